@@ -508,7 +508,9 @@ func runC04(r *mon.Run, replay string) {
 		}(i)
 	}
 	wg.Wait()
-	parallel(r.Pick(80, 800), func(i int) { runC04Nested(r, uint64(49800+i)) })
+	parallel(r.Pick(120, 1000), func(i int) { runC04Nested(r, uint64(49800+i)) })
+	r.Floor("tip_changes_polled_from_inside_the_listener:AddValidatedV2Blocks", 30)
+	r.Floor("tip_changes_polled_from_inside_the_listener:AddBlocks", 30)
 	r.Floor("tip_changes_during_a_notification_round:listener-submits-next-block", 50)
 	r.Floor("tip_changes_during_a_notification_round:second-submitter-during-slow-listener", 50)
 	r.Floor("polls_returning_more_than_64_updates", 50)
